@@ -9,11 +9,14 @@ CT_FUNCS = [('secp256k1_scalar_is_zero', []), ('secp256k1_scalar_cmov', []), ('s
             ('secp256k1_int_cmov', []), ('secp256k1_scalar_check_overflow', []), ('secp256k1_scalar_is_high', []),
             ('secp256k1_scalar_cond_negate', ['secp256k1_scalar_is_zero']), ('secp256k1_scalar_negate', ['secp256k1_scalar_is_zero']),
             ('secp256k1_fe_impl_normalize', []), ('secp256k1_fe_impl_normalize_weak', []), ('secp256k1_fe_impl_normalizes_to_zero', []),
-            ('secp256k1_fe_impl_negate_unchecked', []), ('secp256k1_fe_impl_add', []), ('secp256k1_fe_impl_half', []), ('secp256k1_fe_impl_is_odd', [])]
+            ('secp256k1_fe_impl_negate_unchecked', []), ('secp256k1_fe_impl_add', []), ('secp256k1_fe_impl_half', []), ('secp256k1_fe_impl_is_odd', []),
+            ('secp256k1_scalar_mul_512', []), ('secp256k1_scalar_sqr_512', [])]
 PROOFS = {'secp256k1_fe_mul_inner': ('Kernel/Field5x52.vo', 'fe_mul_inner_correct'),
           'secp256k1_fe_sqr_inner': ('Kernel/Field5x52Sqr.vo', 'fe_sqr_inner_correct')}
 # proofs over the regenerated branch-free primitives: (function, .vo, theorem)
-CT_PROOFS = [('secp256k1_fe_impl_normalize', 'Kernel/FieldNormalize.vo', 'fe_normalize_correct'),
+CT_PROOFS = [('secp256k1_scalar_mul_512', 'Kernel/ScalarMul512.vo', 'scalar_mul_512_correct'),
+             ('secp256k1_scalar_sqr_512', 'Kernel/ScalarSqr512.vo', 'scalar_sqr_512_correct'),
+             ('secp256k1_fe_impl_normalize', 'Kernel/FieldNormalize.vo', 'fe_normalize_correct'),
              ('secp256k1_scalar_check_overflow', 'Kernel/Scalar4x64.vo', 'scalar_check_overflow_correct'),
              ('secp256k1_scalar_is_high', 'Kernel/Scalar4x64.vo', 'scalar_is_high_correct'),
              ('secp256k1_scalar_cmov', 'Kernel/CtPrimitives.vo', 'scalar_cmov_correct'),
@@ -55,7 +58,7 @@ def limb_cases(rng, n, nin):
 RAW_SHAPES = {   # input shapes of the raw ops: S scalar limbs (4 x u64), F field limbs (5), T storage limbs (4), I flag, M magnitude, P non-negative int
  'scalar_is_zero': 'S', 'scalar_cmov': 'SSI', 'fe_impl_cmov': 'FFI', 'fe_storage_cmov': 'TTI', 'int_cmov': 'PPI', 'scalar_check_overflow': 'S',
  'scalar_is_high': 'S', 'scalar_cond_negate': 'sI', 'scalar_negate': 's', 'fe_impl_normalize': 'F', 'fe_impl_normalize_weak': 'F',
- 'fe_impl_normalizes_to_zero': 'F', 'fe_impl_negate_unchecked': 'fM', 'fe_impl_add': 'ff', 'fe_impl_half': 'f', 'fe_impl_is_odd': '1'}
+ 'fe_impl_normalizes_to_zero': 'F', 'fe_impl_negate_unchecked': 'fM', 'fe_impl_add': 'ff', 'fe_impl_half': 'f', 'fe_impl_is_odd': '1', 'scalar_mul_512': 'SS', 'scalar_sqr_512': 'S'}
 N_LIMBS = [0xBFD25E8CD0364141, 0xBAAEDCE6AF48A03B, 0xFFFFFFFFFFFFFFFE, 0xFFFFFFFFFFFFFFFF]
 def raw_inputs(rng, shape):
     v = []
